@@ -171,6 +171,9 @@ def run(spec, out):
     foreign = list(spec.get("foreign_pickles", []))
     if foreign:
         ops += ["unpickle_foreign", "unpickle_foreign"]
+    other_schema = list(spec.get("other_schema", []))
+    if other_schema:
+        ops += ["other_schema", "other_schema"]
 
     from measured.json import MeasuredJSONDecoder, MeasuredJSONEncoder
 
@@ -294,6 +297,37 @@ def run(spec, out):
             if again is not u:
                 violation("C01:unpickled-unit-is-not-the-singleton", f"{M.show(term)} evaluated after unpickling is another object than the unpickled one", {"term": term})
             used_terms.append(term)
+        elif op == "other_schema":
+            # stored data of a program that declared a unit of this name as a pure number is read first; then this program
+            # declares the unit of that name as a length (time, mass).  Whatever the library makes of the two - one object or
+            # two - every unit anybody holds afterwards reports the product of its factors' dimensions
+            import base64
+            import pickle
+            if not other_schema:
+                return
+            name, symbol, blob = other_schema.pop()
+            try:
+                stored = pickle.loads(base64.b64decode(blob))
+                count("other_schema_data_loaded")
+            except Exception as e:
+                count(f"other_schema_data_refused/{type(e).__name__}")
+                return
+            try:
+                mine = Unit.define(rng.choice([m.Length, m.Time, m.Mass]), name, symbol)
+                count("declared_after_loading_other_schema_data")
+            except Exception as e:
+                count(f"declaration_after_other_schema_data_refused/{type(e).__name__}")
+                mine = None
+            held = [getattr(x, "unit", x) for x in stored]
+            if mine is not None:
+                held += [mine, mine / Unit._by_name["second"], mine ** 2 * Unit._by_name["meter"], (5 * mine / Unit._by_name["second"]).unit]
+            for u in held:
+                want = model_dim(u.factors) if not (len(u.factors) == 1 and next(iter(u.factors)) is u) else tuple(u.dimension.exponents)
+                count("units_checked_after_other_schema_data")
+                if tuple(u.dimension.exponents) != want:
+                    violation("C01:dimension-differs-from-product-of-factors:after-loading-data-of-another-schema",
+                              f"{u!r} reports {u.dimension} but its factors multiply to exponents {want} (stored data declared {name!r} as a number, this program as a "
+                              f"{getattr(getattr(mine, 'dimension', None), 'name', None)})", {"name": name})
         elif op == "define_dimension":
             k = counts.get("dimensions_defined", 0)
             d = Dimension.define(f"zqc01dim{k}", f"Zq{k}")
